@@ -16,6 +16,7 @@ literally a universal quantifier.
 -/
 import OdmlModel.Model.FS
 import OdmlModel.Proofs.FS
+import OdmlModel.Proofs.Uuid
 import OdmlModel.Generated.ValidationTables
 import OdmlModel.Generated.MiscTables
 
@@ -635,5 +636,116 @@ theorem resave_failure_keeps_first_save {Doc} (env₁ env₂ : Env Doc) (backend
   (failed_save_keeps_completed_name env₂ backend f₂ d₂ p _ e h₂).1
 
 example : hasError ((List.replicate 24 Rank.warning) ++ Rank.error :: []) = true := by decide
+
+/-! ## 9. Duplicate ids, however the id was written (strengthening round 6)
+
+The way "duplicate ids" of being invalid, carried by the model instead of being left to the
+parameter `validate`: the rule compares the id *texts*; the public doors through which an id
+comes in (`oid=` of the constructors, which the readers use too, and `new_id`) store
+`str(uuid.UUID(oid))`. So two objects that were handed the same UUID - in whatever spelling
+`uuid.UUID` reads: upper case, `urn:uuid:`, braces, no hyphens - hold the same text, the rule
+yields an issue of rank error, and the document is never written. -/
+
+theorem dupIds_nil {seen l : List (List Char)} (h : dupIds seen l = []) :
+    l.Nodup ∧ ∀ x ∈ l, x ∉ seen := by
+  induction l generalizing seen with
+  | nil => simp
+  | cons x xs ih =>
+    unfold dupIds at h
+    by_cases hc : seen.contains x = true
+    · rw [if_pos hc] at h
+      exact absurd h (by simp)
+    · rw [if_neg hc] at h
+      have h' := ih h
+      have hx : x ∉ seen := by simpa using hc
+      refine ⟨List.nodup_cons.2 ⟨fun hm => (h'.2 x hm) (by simp), h'.1⟩, ?_⟩
+      intro y hy
+      rcases List.mem_cons.1 hy with rfl | hy
+      · exact hx
+      · exact fun hs => (h'.2 y hy) (List.mem_cons_of_mem _ hs)
+
+/-- Two objects of one id text anywhere in the document: the rule yields an issue. -/
+theorem duplicate_id_has_issue (a b c : List (List Char)) (x : List Char) :
+    uniqueIdIssues (a ++ x :: b ++ x :: c) ≠ [] := by
+  intro h
+  have hn := (dupIds_nil h).1
+  simp [List.nodup_append, List.nodup_cons] at hn
+
+/-- No two objects of one id text: the rule yields nothing (it never blocks a document for its ids). -/
+theorem distinct_ids_no_issue (ids : List (List Char)) (h : ids.Nodup) : uniqueIdIssues ids = [] := by
+  suffices H : ∀ (l seen : List (List Char)), l.Nodup → (∀ x ∈ l, x ∉ seen) → dupIds seen l = [] from
+    H ids [] h (by simp)
+  intro l
+  induction l with
+  | nil => intros; rfl
+  | cons x xs ih =>
+    intro seen hn hs
+    have hx : seen.contains x = false := by simpa using hs x (by simp)
+    unfold dupIds
+    rw [if_neg (by rw [hx]; exact Bool.false_ne_true)]
+    rcases List.nodup_cons.1 hn with ⟨hxx, hn'⟩
+    apply ih _ hn'
+    intro y hy hm
+    rcases List.mem_cons.1 hm with rfl | hm
+    · exact hxx hy
+    · exact hs y (List.mem_cons_of_mem _ hy) hm
+
+/-- Whatever the spelling: a door that is handed a text `uuid.UUID` reads as the UUID `n` stores
+    the canonical text of `n`. -/
+theorem stored_text_of_spelling {s x : List Char} {n : Nat} (hs : Py.Uuid.parse s = some n)
+    (hx : StoredFrom s x) : x = Py.Uuid.render n := by
+  rcases hx with ⟨fresh, rfl⟩ | ⟨fresh, h⟩
+  · exact Py.Uuid.ctorId_valid s fresh n hs
+  · simpa [Py.Uuid.newId, hs] using h.symm
+
+/-- **Duplicate ids, any spelling, any door, any format.** Two objects of a document (in either
+    order, anything before, between and behind them) got their ids through the constructor argument
+    or `new_id` from two texts `s₁`, `s₂` that `uuid.UUID` reads as the same UUID; the validation
+    returns the issues of the id rule among any others. Then `ODMLWriter.write_file` (every
+    backend, every RDF sub-format) and `odml.save` raise `ParserException` and leave the file
+    system as it was. -/
+theorem respelled_duplicate_id_never_written {Doc} (env : Env Doc) (d : Doc)
+    (a b c : List (List Char)) (x y s₁ s₂ : List Char) (n : Nat)
+    (h₁ : Py.Uuid.parse s₁ = some n) (h₂ : Py.Uuid.parse s₂ = some n)
+    (hx : StoredFrom s₁ x) (hy : StoredFrom s₂ y)
+    (pre post : List Rank)
+    (hv : env.validate d = .ok (pre ++ idRanks (a ++ x :: b ++ y :: c) ++ post))
+    (f : Option (List Char)) (p : Path) (fs : Fs) :
+    (∀ bk : Backend, odmlWriterWriteFile env bk f d p fs = (fs, .raised .parserException)) ∧
+    (∀ backend : List Char, (parseBackend backend).isSome = true →
+      fileioSave env backend f d p fs = (fs, .raised .parserException)) := by
+  have exy : y = x := (stored_text_of_spelling h₂ hy).trans (stored_text_of_spelling h₁ hx).symm
+  subst exy
+  have hne := duplicate_id_has_issue a b c y
+  cases hi : uniqueIdIssues (a ++ y :: b ++ y :: c) with
+  | nil => exact absurd hi hne
+  | cons i rest =>
+    have hr : pre ++ idRanks (a ++ y :: b ++ y :: c) ++ post
+        = pre ++ Rank.error :: (rest.map (fun _ => Rank.error) ++ post) := by
+      unfold idRanks
+      rw [hi]
+      simp
+    rw [hr] at hv
+    exact error_anywhere_never_written env d pre _ hv f p fs
+
+/-- A text `uuid.UUID` does not read is refused by `new_id`: the object keeps its id. -/
+theorem unreadable_id_refused (s : List Char) (fresh : Nat) (h : Py.Uuid.parse s = none) :
+    Py.Uuid.newId (some s) fresh = none := Py.Uuid.newId_malformed s fresh h
+
+/-- The hypotheses are satisfiable: four spellings of one UUID, one stored text; the rule at work. -/
+example : Py.Uuid.parse "12345678-9abc-4def-8123-456789abcdef".toList
+    = some 0x123456789abc4def8123456789abcdef := by decide +kernel
+example : Py.Uuid.parse "12345678-9ABC-4DEF-8123-456789ABCDEF".toList
+    = some 0x123456789abc4def8123456789abcdef := by decide +kernel
+example : Py.Uuid.parse "urn:uuid:12345678-9abc-4def-8123-456789abcdef".toList
+    = some 0x123456789abc4def8123456789abcdef := by decide +kernel
+example : Py.Uuid.parse "{123456789abc4def8123456789abcdef}".toList
+    = some 0x123456789abc4def8123456789abcdef := by decide +kernel
+example : Py.Uuid.render 0x123456789abc4def8123456789abcdef
+    = "12345678-9abc-4def-8123-456789abcdef".toList := by decide +kernel
+example : Py.Uuid.parse "URN:UUID:12345678-9abc-4def-8123-456789abcdef".toList = none := by decide +kernel
+
+example : uniqueIdIssues ["d".toList, "p".toList, "s".toList, "p".toList, "d".toList]
+    = ["p".toList, "d".toList] := by decide
 
 end C07
